@@ -364,16 +364,57 @@ theorem eval_call3 (c : Ctx V) (t : Int) (fn : String) (a b d : Expr V) :
     all_goals (intros; first | contradiction | (rename_i hh; cases hh))
     all_goals (first | contradiction | skip)
 
+/-! ### `timestamp()` -/
+
+/-- the value of `timestamp(a)` as a function of the unwrapped form `u` of `a` and of `a`'s value -/
+def tsBody (c : Ctx V) (t : Int) (u : Expr V) (r : Except Err (Value V)) : Except Err (Value V) :=
+  match u with
+  | .vsel s =>
+    if c.q.timestampIsStepTime then do
+      let v ← (← r).asVec
+      dedupCheck c (v.map fun x => (x.1.dropName, div (ofInt t) (ofInt 1000)))
+    else
+      match s.atTs with
+      | none =>
+        dedupCheck c ((selectT c s (s.refTime c.start t)).map fun x =>
+          (x.1.dropName, div (ofInt x.2.1) (ofInt 1000)))
+      | some a =>
+        let o := s.origOffset
+        let hi := if o ≥ 0 then a - o else a
+        let lo := if o ≥ 0 then a - c.lookback else a - c.lookback - o
+        dedupCheck c ((matchingSeries c s).filterMap fun sr =>
+          match latestAtOrBefore sr.samples hi with
+          | some ⟨ts, .num _⟩ =>
+            if ts < lo then none else some (sr.labels.dropName, div (ofInt ts) (ofInt 1000))
+          | _ => none)
+  | _ => do
+    let v ← (← r).asVec
+    dedupCheck c (v.map fun x => (x.1.dropName, div (ofInt t) (ofInt 1000)))
+
+theorem eval_timestamp (c : Ctx V) (t : Int) (a : Expr V) (hm : isMsel a = false) :
+    eval c t (.call "timestamp" [a]) = tsBody c t a.unwrap (eval c t a) := by
+  have hne := isMsel_false_ne a hm
+  unfold tsBody
+  rw [eval] <;> first | rfl | (intro s r hh; exact hne s r hh) | skip
+
+theorem tsBody_other (c : Ctx V) (t : Int) (u u' : Expr V) (hu : ∀ s, u ≠ .vsel s) (hu' : ∀ s, u' ≠ .vsel s)
+    (r : Except Err (Value V)) : tsBody c t u' r = tsBody c t u r := by
+  unfold tsBody
+  cases u <;> cases u' <;> first | rfl | (exact absurd rfl (hu _)) | (exact absurd rfl (hu' _))
+
+
 /-! ### the traversal -/
 
 section traversal
 variable (c : Ctx V)
 
+
 /-- what the traversal does to a node: the value is unchanged, a matrix selector stays itself -/
 def Rel (a' a : Expr V) : Prop :=
-  (∀ t, eval c t a' = eval c t a) ∧ isMsel a' = isMsel a ∧ (isMsel a = true → a' = a)
+  (∀ t, eval c t a' = eval c t a) ∧ isMsel a' = isMsel a ∧ (isMsel a = true → a' = a) ∧
+    (∀ s, a'.unwrap = .vsel s → a' = a)
 
-theorem rel_refl (a : Expr V) : Rel c a a := ⟨fun _ => rfl, rfl, fun _ => rfl⟩
+theorem rel_refl (a : Expr V) : Rel c a a := ⟨fun _ => rfl, rfl, fun _ => rfl, fun _ _ => rfl⟩
 
 theorem all2_rel_refl (as : List (Expr V)) : All2 (Rel c) as as := by
   induction as with
@@ -381,8 +422,10 @@ theorem all2_rel_refl (as : List (Expr V)) : All2 (Rel c) as as := by
   | cons a as ih => exact All2.cons (rel_refl c a) ih
 
 /-- a call with at most three arguments depends on its arguments through their values only
-(a matrix-selector argument is never rewritten) -/
-theorem call_congr (fn : String) (hts : fn ≠ "timestamp") (args' args : List (Expr V)) (hlen : args.length ≤ 3)
+(a matrix-selector argument is never rewritten; the argument of `timestamp`, whose unwrapped form
+matters, is either not a selector before and after, or unchanged: `hts`) -/
+theorem call_congr (fn : String) (args' args : List (Expr V)) (hlen : args.length ≤ 3)
+    (hts : fn = "timestamp" → ∀ a s, args = [a] → a.unwrap = .vsel s → args' = args)
     (h : All2 (Rel c) args' args) (t : Int) : eval c t (.call fn args') = eval c t (.call fn args) := by
   cases h with
   | nil => rfl
@@ -390,11 +433,23 @@ theorem call_congr (fn : String) (hts : fn ≠ "timestamp") (args' args : List (
     cases hrest with
     | nil =>
       rename_i a' a
-      obtain ⟨hev, hm, hmm⟩ := hr
+      obtain ⟨hev, hm, hmm, hun⟩ := hr
       cases hma : isMsel a with
       | true => rw [hmm hma]
       | false =>
-        rw [eval_call1 c t fn a hma hts, eval_call1 c t fn a' (by rw [hm, hma]) hts, hev t]
+        by_cases hfn : fn = "timestamp"
+        · by_cases hu : ∃ s, a.unwrap = .vsel s
+          · obtain ⟨s, hs⟩ := hu
+            rw [hts hfn a s rfl hs]
+          · subst hfn
+            rw [eval_timestamp c t a hma, eval_timestamp c t a' (by rw [hm, hma]), hev t]
+            apply tsBody_other
+            · intro s hs; exact hu ⟨s, hs⟩
+            · intro s hs
+              have := hun s hs
+              subst this
+              exact hu ⟨s, hs⟩
+        · rw [eval_call1 c t fn a hma hfn, eval_call1 c t fn a' (by rw [hm, hma]) hfn, hev t]
     | cons hr2 hrest2 =>
       cases hrest2 with
       | nil => rw [eval_call2, eval_call2, hr.1 t, hr2.1 t]
@@ -402,6 +457,97 @@ theorem call_congr (fn : String) (hts : fn ≠ "timestamp") (args' args : List (
         cases hrest3 with
         | nil => rw [eval_call3, eval_call3, hr.1 t, hr2.1 t, hr3.1 t]
         | cons _ _ => simp at hlen
+
+/-- below a distributive parent, a (wrapped) vector selector is left as it is and the traversal
+goes on -/
+theorem trav_unwrap_vsel (n : Nat) : ∀ (a : Expr V) (par : Option (Expr V)) (s : VSel),
+    isDistributive par = true → a.unwrap = .vsel s → traverseD n par a = some (a, false)
+  | .vsel s', par, _, hp, _ => by
+    rw [traverseD]
+    have h1 : isDistributive (some (Expr.vsel s' : Expr V)) = true := rfl
+    simp only [transformD, h1, hp, Bool.not_true, Bool.false_eq_true, if_false, if_true]
+  | .paren e, _, s, _, h => by
+    rw [traverseD, trav_unwrap_vsel n e (some (.paren e)) s rfl (by simpa [Expr.unwrap] using h)]
+    rfl
+  | .stepInv e, _, s, _, h => by
+    rw [traverseD, trav_unwrap_vsel n e (some (.stepInv e)) s rfl (by simpa [Expr.unwrap] using h)]
+    rfl
+  | .num _, _, _, _, h => by simp [Expr.unwrap] at h
+  | .str, _, _, _, h => by simp [Expr.unwrap] at h
+  | .msel _ _, _, _, _, h => by simp [Expr.unwrap] at h
+  | .subq _, _, _, _, h => by simp [Expr.unwrap] at h
+  | .call _ _, _, _, _, h => by simp [Expr.unwrap] at h
+  | .agg _ _ _ _, _, _, _, h => by simp [Expr.unwrap] at h
+  | .aggP _ _ _ _ _, _, _, _, h => by simp [Expr.unwrap] at h
+  | .bin _ _ _ _ _, _, _, _, h => by simp [Expr.unwrap] at h
+  | .neg _, _, _, _, h => by simp [Expr.unwrap] at h
+  | .pos _, _, _, _, h => by simp [Expr.unwrap] at h
+  | .coalesce _, _, _, _, h => by simp [Expr.unwrap] at h
+  | .remote _ _, _, _, _, h => by simp [Expr.unwrap] at h
+
+theorem unwrap_vsel_seriesTyped : ∀ (a : Expr V) (s : VSel), a.unwrap = .vsel s → isSeriesTyped a = true
+  | .vsel _, _, _ => rfl
+  | .paren e, s, h => by
+    have := unwrap_vsel_seriesTyped e s (by simpa [Expr.unwrap] using h)
+    cases e <;> simp_all [isSeriesTyped, Expr.isScalar, Expr.unwrap]
+  | .stepInv e, s, h => by
+    have := unwrap_vsel_seriesTyped e s (by simpa [Expr.unwrap] using h)
+    cases e <;> simp_all [isSeriesTyped, Expr.isScalar, Expr.unwrap]
+  | .num _, _, h => by simp [Expr.unwrap] at h
+  | .str, _, h => by simp [Expr.unwrap] at h
+  | .msel _ _, _, h => by simp [Expr.unwrap] at h
+  | .subq _, _, h => by simp [Expr.unwrap] at h
+  | .call _ _, _, h => by simp [Expr.unwrap] at h
+  | .agg _ _ _ _, _, h => by simp [Expr.unwrap] at h
+  | .aggP _ _ _ _ _, _, h => by simp [Expr.unwrap] at h
+  | .bin _ _ _ _ _, _, h => by simp [Expr.unwrap] at h
+  | .neg _, _, h => by simp [Expr.unwrap] at h
+  | .pos _, _, h => by simp [Expr.unwrap] at h
+  | .coalesce _, _, h => by simp [Expr.unwrap] at h
+  | .remote _ _, _, h => by simp [Expr.unwrap] at h
+
+/-- `timestamp(a)` over a local argument is local: over a (wrapped) selector it reads the selected
+samples' own timestamps, series by series; over anything else it is a per-sample map -/
+theorem loc_timestamp (hq : c.q.noDupCheck = true) (a : Expr V) (hm : isMsel a = false) (ha : Loc c a) :
+    Loc c (.call "timestamp" [a]) := by
+  cases hu : a.unwrap with
+  | vsel s =>
+    by_cases hflag : c.q.timestampIsStepTime = true
+    · apply loc_map c hq a _ (fun t x => (x.1.dropName, div (ofInt t) (ofInt 1000))) ha
+      intro t st
+      rw [eval_timestamp _ t a hm, hu]
+      simp only [tsBody, hflag, if_true]
+    · have hflag' : c.q.timestampIsStepTime = false := by simpa using hflag
+      cases hat : s.atTs with
+      | none =>
+        intro t
+        refine ⟨fun st => .ok ((selectT { c with st := st } s (s.refTime c.start t)).map fun x =>
+          (x.1.dropName, div (ofInt x.2.1) (ofInt 1000))), fun st => ?_, fun P Q => ?_⟩
+        · rw [eval_timestamp _ t a hm, hu]
+          simp only [tsBody, hflag', Bool.false_eq_true, if_false, hat, dedupCheck, hq, Bool.not_true, Bool.false_and,
+            Except.map]
+        · simp only [appE_ok]
+          congr 1
+          simp [selectT, matchingSeries, List.filter_append, List.filterMap_append]
+      | some at_ =>
+        intro t
+        refine ⟨fun st => .ok ((matchingSeries { c with st := st } s).filterMap fun sr =>
+          match latestAtOrBefore sr.samples (if s.origOffset ≥ 0 then at_ - s.origOffset else at_) with
+          | some ⟨ts, .num _⟩ =>
+            if ts < (if s.origOffset ≥ 0 then at_ - c.lookback else at_ - c.lookback - s.origOffset) then none
+            else some (sr.labels.dropName, div (ofInt ts) (ofInt 1000))
+          | _ => none), fun st => ?_, fun P Q => ?_⟩
+        · rw [eval_timestamp _ t a hm, hu]
+          simp only [tsBody, hflag', Bool.false_eq_true, if_false, hat, dedupCheck, hq, Bool.not_true, Bool.false_and,
+            Except.map]
+        · simp only [appE_ok]
+          congr 1
+          simp [matchingSeries, List.filter_append, List.filterMap_append]
+  | _ =>
+    apply loc_map c hq a _ (fun t x => (x.1.dropName, div (ofInt t) (ofInt 1000))) ha
+    intro t st
+    rw [eval_timestamp _ t a hm, hu]
+    rfl
 
 /-- a literal argument stops the loop over the arguments -/
 theorem travArgs_stops (n : Nat) (par : Option (Expr V)) (args : List (Expr V)) (h : args.any stopsArg = true)
@@ -453,7 +599,7 @@ variable (hq : c.q.noDupCheck = true) (hst : c.st = c.parts.flatten) (hne : c.pa
 
 include hq in
 /-- a distributive call with at most one argument, over local arguments, is local -/
-theorem loc_call (fn : String) (hts : fn ≠ "timestamp") (args : List (Expr V)) (hlen : args.length ≤ 1)
+theorem loc_call (fn : String) (args : List (Expr V)) (hlen : args.length ≤ 1)
     (hd : isDistributive (some (.call fn args)) = true) (hargs : ∀ a ∈ args, Loc c a) : Loc c (.call fn args) := by
   simp only [isDistributive, Bool.and_eq_true, Bool.not_eq_true'] at hd
   obtain ⟨⟨⟨hsc, hnl⟩, _⟩, hany⟩ := hd
@@ -471,6 +617,9 @@ theorem loc_call (fn : String) (hts : fn ≠ "timestamp") (args : List (Expr V))
       | _ => cases hma
     | false =>
       have ha := hargs a List.mem_cons_self
+      by_cases hts : fn = "timestamp"
+      · subst hts
+        exact loc_timestamp c hq a hma ha
       by_cases hs : simpleFns.contains fn = true
       · exact loc_simple c hq fn a hs (isMsel_false_ne a hma) ha
       · apply loc_of_error c _ .unsupported
@@ -519,6 +668,7 @@ theorem wrap_case (W : Expr V → Expr V) (parent : Option (Expr V)) (e : Expr V
     (hsite : siteOk (W e) = siteOk e)
     (hev : ∀ a', (∀ t, eval c t a' = eval c t e) → ∀ t, eval c t (W a') = eval c t (W e))
     (hm : ∀ a, isMsel (W a) = false) (hloc : Loc c e → Loc c (W e))
+    (hun : ∀ x s, (W x).unwrap = .vsel s → x.unwrap = .vsel s)
     (ih : M2 c (some (W e)) e) : M2 c parent (W e) := by
   intro hok e' st h
   rw [htrav] at h
@@ -529,8 +679,9 @@ theorem wrap_case (W : Expr V → Expr V) (parent : Option (Expr V)) (e : Expr V
     rw [hr] at h
     simp only [Option.map_some, Option.some.injEq, Prod.mk.injEq] at h
     obtain ⟨rfl, rfl⟩ := h
-    obtain ⟨⟨hev1, _, _⟩, hl⟩ := ih (by rw [← hsite]; exact hok) r1 r2 hr
-    refine ⟨⟨hev r1 hev1, by rw [hm, hm], fun hh => by rw [hm] at hh; cases hh⟩, fun hst' => ?_⟩
+    obtain ⟨⟨hev1, _, _, hun4⟩, hl⟩ := ih (by rw [← hsite]; exact hok) r1 r2 hr
+    refine ⟨⟨hev r1 hev1, (by rw [hm, hm]), fun hh => (by rw [hm] at hh; cases hh),
+      fun s hs => (by rw [hun4 s (hun r1 s hs)])⟩, fun hst' => ?_⟩
     obtain ⟨rfl, hle⟩ := hl hst'
     exact ⟨rfl, hloc hle⟩
 
@@ -544,15 +695,19 @@ theorem traverse_sound (hex : ∀ op, exactAggs.contains op = true → ExactAgg 
   -- stepInv
   · intro parent e ih
     exact wrap_case c .stepInv parent e (by rw [traverseD]) (by rw [siteOk])
-      (fun a' h t => by rw [eval, eval]; exact h c.start) (fun _ => rfl) (loc_stepInv c e) ih
+      (fun a' h t => by rw [eval, eval]; exact h c.start) (fun _ => rfl) (loc_stepInv c e)
+      (fun x s h => by simpa [Expr.unwrap] using h) ih
   -- vsel
   · intro parent s _ e' st h
     rw [traverseD] at h
     simp only [Option.some.injEq] at h
     obtain ⟨h1, h2, h3⟩ := transform_plain c hst hne parent (.vsel s) rfl (fun _ _ _ _ hh => by cases hh)
       (fun _ _ _ _ _ hh => by cases hh) (loc_vsel c s) e' st h
-    refine ⟨⟨h1, ?_, fun hh => by cases hh⟩, fun hs => ⟨h2 hs, loc_vsel c s⟩⟩
-    rcases h3 with rfl | rfl <;> rfl
+    refine ⟨⟨h1, ?_, fun hh => (by cases hh), ?_⟩, fun hs => ⟨h2 hs, loc_vsel c s⟩⟩
+    · rcases h3 with rfl | rfl <;> rfl
+    · rcases h3 with rfl | rfl
+      · exact fun _ _ => rfl
+      · intro s' hs'; simp [makeRemotes, Expr.unwrap] at hs'
   -- msel, the inner selector kept
   · intro parent s r s' st htr _ e' st' h
     rw [traverseD, htr] at h
@@ -587,8 +742,8 @@ theorem traverse_sound (hex : ∀ op, exactAggs.contains op = true → ExactAgg 
       rw [siteOk] at hok
       simp only [Bool.and_eq_true] at hok
       exact hok.1
-    obtain ⟨⟨hev, _, _⟩, _⟩ := ih hoke a' true hsome
-    exact ⟨⟨fun t => by rw [eval, eval, hev t], rfl, fun hh => by cases hh⟩, fun hh => by cases hh⟩
+    obtain ⟨⟨hev, _, _, _⟩, _⟩ := ih hoke a' true hsome
+    exact ⟨⟨fun t => by rw [eval, eval, hev t], rfl, fun hh => (by cases hh), fun s hs => (by simp [Expr.unwrap] at hs)⟩, fun hh => by cases hh⟩
   -- agg: not stopped below
   · intro parent op w g e a' hsome ih hok e' st h
     rw [traverseD, hsome] at h
@@ -606,7 +761,7 @@ theorem traverse_sound (hex : ∀ op, exactAggs.contains op = true → ExactAgg 
         · exact h'
       simp only [isDistributive, hd, Bool.not_true, Bool.false_eq_true, if_false, Prod.mk.injEq] at h
       obtain ⟨rfl, rfl⟩ := h
-      exact ⟨⟨fun t => eval_agg_site c hq t op w g a' (hloc t) (hex op hexact) hst hne, rfl, fun hh => by cases hh⟩,
+      exact ⟨⟨fun t => eval_agg_site c hq t op w g a' (hloc t) (hex op hexact) hst hne, rfl, fun hh => (by cases hh), fun s hs => (by simp [Expr.unwrap] at hs)⟩,
         fun hh => by cases hh⟩
     · have hd' : distAggs.contains op = false := by simpa using hd
       simp only [isDistributive, hd', Bool.not_false, if_true, Prod.mk.injEq] at h
@@ -625,8 +780,8 @@ theorem traverse_sound (hex : ∀ op, exactAggs.contains op = true → ExactAgg 
       rw [siteOk] at hok
       simp only [Bool.and_eq_true] at hok
       exact hok.1
-    obtain ⟨⟨hev, _, _⟩, _⟩ := ih hoke a' true hsome
-    exact ⟨⟨fun t => by rw [eval, eval, hev t], rfl, fun hh => by cases hh⟩, fun hh => by cases hh⟩
+    obtain ⟨⟨hev, _, _, _⟩, _⟩ := ih hoke a' true hsome
+    exact ⟨⟨fun t => by rw [eval, eval, hev t], rfl, fun hh => (by cases hh), fun s hs => (by simp [Expr.unwrap] at hs)⟩, fun hh => by cases hh⟩
   -- aggP: not stopped below (then it is not distributive)
   · intro parent op w g p e a' hsome ih hok e' st h
     rw [traverseD, hsome] at h
@@ -650,21 +805,30 @@ theorem traverse_sound (hex : ∀ op, exactAggs.contains op = true → ExactAgg 
     simp only [Option.some.injEq, Prod.mk.injEq] at h
     obtain ⟨rfl, rfl⟩ := h
     rw [siteOk] at hok
-    simp only [Bool.and_eq_true, Bool.or_eq_true, bne_iff_ne, ne_eq, decide_eq_true_eq] at hok
-    obtain ⟨⟨hts, hargs⟩, hlen⟩ := hok
+    simp only [Bool.and_eq_true, Bool.or_eq_true, decide_eq_true_eq] at hok
+    obtain ⟨hargs, hlen⟩ := hok
     have hlen3 : args.length ≤ 3 := by
       rcases hlen with h1 | ⟨h3, _⟩
       · omega
       · exact h3
     obtain ⟨hall, _⟩ := ih hargs args' true hsome
-    exact ⟨⟨fun t => call_congr c fn hts args' args hlen3 hall t, rfl, fun hh => by cases hh⟩, fun hh => by cases hh⟩
+    have hts : fn = "timestamp" → ∀ a s, args = [a] → a.unwrap = .vsel s → args' = args := by
+      intro hfn a s hargs1 hu
+      subst hfn hargs1
+      -- a (wrapped) selector below `timestamp` is walked through: the loop cannot have stopped
+      have hd : isDistributive (some (Expr.call "timestamp" [a])) = true := by
+        simp [isDistributive, unwrap_vsel_seriesTyped a s hu, scalarFns, nonLocalCalls]
+      have := trav_unwrap_vsel c.parts.length a (some (Expr.call "timestamp" [a])) s hd hu
+      rw [traverseD.travArgs, this] at hsome
+      simp [traverseD.travArgs] at hsome
+    exact ⟨⟨fun t => call_congr c fn args' args hlen3 hts hall t, rfl, fun hh => (by cases hh), fun s hs => (by simp [Expr.unwrap] at hs)⟩, fun hh => by cases hh⟩
   -- call: no argument stopped
   · intro parent fn args args' hsome ih hok e' st h
     rw [traverseD, hsome] at h
     simp only [Option.some.injEq] at h
     rw [siteOk] at hok
-    simp only [Bool.and_eq_true, Bool.or_eq_true, bne_iff_ne, ne_eq, decide_eq_true_eq] at hok
-    obtain ⟨⟨hts, hargs⟩, hlen'⟩ := hok
+    simp only [Bool.and_eq_true, Bool.or_eq_true, decide_eq_true_eq] at hok
+    obtain ⟨hargs, hlen'⟩ := hok
     have hlen : args.length ≤ 1 := by
       rcases hlen' with h1 | ⟨_, hany⟩
       · exact h1
@@ -673,11 +837,14 @@ theorem traverse_sound (hex : ∀ op, exactAggs.contains op = true → ExactAgg 
     obtain ⟨_, hl⟩ := ih hargs args' false hsome
     obtain ⟨rfl, hlocs⟩ := hl rfl
     by_cases hd : isDistributive (some (.call fn args')) = true
-    · have hloc := loc_call c hq fn hts args' hlen hd hlocs
+    · have hloc := loc_call c hq fn args' hlen hd hlocs
       obtain ⟨h1, h2, h3⟩ := transform_plain c hst hne parent (.call fn args') hd (fun _ _ _ _ hh => by cases hh)
         (fun _ _ _ _ _ hh => by cases hh) hloc e' st h
-      refine ⟨⟨h1, ?_, fun hh => by cases hh⟩, fun hs => ⟨h2 hs, hloc⟩⟩
-      rcases h3 with rfl | rfl <;> rfl
+      refine ⟨⟨h1, ?_, fun hh => (by cases hh), ?_⟩, fun hs => ⟨h2 hs, hloc⟩⟩
+      · rcases h3 with rfl | rfl <;> rfl
+      · rcases h3 with rfl | rfl
+        · exact fun _ _ => rfl
+        · intro s' hs'; simp [makeRemotes, Expr.unwrap] at hs'
     · have hd' : isDistributive (some (.call fn args')) = false := by simpa using hd
       unfold transformD at h
       simp only [hd', Bool.not_false, if_true, Prod.mk.injEq] at h
@@ -690,9 +857,9 @@ theorem traverse_sound (hex : ∀ op, exactAggs.contains op = true → ExactAgg 
     obtain ⟨rfl, rfl⟩ := h
     rw [siteOk] at hok
     simp only [Bool.and_eq_true] at hok
-    obtain ⟨⟨hevl, _, _⟩, _⟩ := ihl hok.1 l' ls hl
-    obtain ⟨⟨hevr, _, _⟩, _⟩ := ihr hok.2 r' rs hr
-    exact ⟨⟨fun t => by rw [eval, eval, hevl t, hevr t], rfl, fun hh => by cases hh⟩, fun hh => by cases hh⟩
+    obtain ⟨⟨hevl, _, _, _⟩, _⟩ := ihl hok.1 l' ls hl
+    obtain ⟨⟨hevr, _, _, _⟩, _⟩ := ihr hok.2 r' rs hr
+    exact ⟨⟨fun t => by rw [eval, eval, hevl t, hevr t], rfl, fun hh => (by cases hh), fun s hs => (by simp [Expr.unwrap] at hs)⟩, fun hh => by cases hh⟩
   -- bin: neither side stopped
   · intro parent op b m l r l' ls r' rs hr hl hor ihl ihr hok e' st h
     rw [traverseD, hl, hr] at h
@@ -720,20 +887,24 @@ theorem traverse_sound (hex : ∀ op, exactAggs.contains op = true → ExactAgg 
   -- neg
   · intro parent e ih
     exact wrap_case c .neg parent e (by rw [traverseD]) (by rw [siteOk])
-      (fun a' h t => by rw [eval, eval, h t]) (fun _ => rfl) (loc_neg c e) ih
+      (fun a' h t => by rw [eval, eval, h t]) (fun _ => rfl) (loc_neg c e)
+      (fun x s h => by simp [Expr.unwrap] at h) ih
   -- pos
   · intro parent e ih
     exact wrap_case c .pos parent e (by rw [traverseD]) (by rw [siteOk])
-      (fun a' h t => by rw [eval, eval, h t]) (fun _ => rfl) (loc_pos c e) ih
+      (fun a' h t => by rw [eval, eval, h t]) (fun _ => rfl) (loc_pos c e)
+      (fun x s h => by simp [Expr.unwrap] at h) ih
   -- paren
   · intro parent e ih
     exact wrap_case c .paren parent e (by rw [traverseD]) (by rw [siteOk])
-      (fun a' h t => by rw [eval, eval, h t]) (fun _ => rfl) (loc_paren c e) ih
+      (fun a' h t => by rw [eval, eval, h t]) (fun _ => rfl) (loc_paren c e)
+      (fun x s h => by simpa [Expr.unwrap] using h) ih
   -- subq
   · intro parent e ih
     exact wrap_case c .subq parent e (by rw [traverseD]) (by rw [siteOk])
       (fun a' h t => by rw [eval, eval]) (fun _ => rfl)
-      (fun _ => loc_of_error c _ .unsupported (fun t st => by rw [eval])) ih
+      (fun _ => loc_of_error c _ .unsupported (fun t st => by rw [eval]))
+      (fun x s h => by simp [Expr.unwrap] at h) ih
   -- literals, and nodes that are plan nodes already
   · intro parent e h1 h2 h3 h4 h5 h6 h7 h8 h9 h10 h11 _ e' st h
     rw [traverseD] at h <;> first | assumption | skip
